@@ -91,7 +91,7 @@ def inline(doc, node, stack=()):
                 else:
                     return {'$dangling': ref}
             rest = {k: inline(doc, v, stack) for k, v in node.items() if k != '$ref'}
-            return {'$inlined': inline(doc, cur, stack + (ref,)), **rest}
+            return {'$inlined': inline(doc, cur, stack + (ref,)), '$ref-name': ref, **rest}
         return {k: inline(doc, v, stack) for k, v in node.items()}
     if isinstance(node, list):
         return [inline(doc, v, stack) for v in node]
@@ -274,6 +274,8 @@ def _first_diff(a, b, path=''):
 
 
 def _diff_class(diff):
+    if '$ref-name' in diff:
+        return 'component-name'
     if '$dangling' in diff or '$inlined' in diff and 'only on one side' in diff:
         return 'component-reference'
     if '/errors' in diff or 'error' in diff.lower():
@@ -386,7 +388,7 @@ def gen(ctx):
     rng = ctx.rng
     full = ctx.thorough
     k = 0
-    n_sets = 2500 if full else 130
+    n_sets = 6000 if full else 330
     for _ in range(n_sets):
         n = rng.randint(1, 4 if full else 3)
         methods = [random_method(rng, i) for i in range(n)]
